@@ -803,6 +803,13 @@ func (e *Exec) heapInit(key string, vtype types.Type) {
 // declareHeapVersion declares a (base) version of a heap map together with the type
 // invariant of everything stored in it.
 func (e *Exec) declareHeapVersion(key, name string) Term {
+	return e.declareHeapVersionAt(key, name, e.alloc0)
+}
+
+// declareHeapVersionAt declares a base version of a heap map that exists when the allocation
+// frontier is alloc: type invariants of the stored values, and "every reference stored in an
+// allocated object is itself allocated".
+func (e *Exec) declareHeapVersionAt(key, name string, alloc Term) Term {
 	m := e.heapMetas[key]
 	e.declare(name, m.sort)
 	t := Term{name, m.sort}
@@ -811,6 +818,9 @@ func (e *Exec) declareHeapVersion(key, name string) Term {
 		i := Term{"i!q", SInt}
 		v := Select(Select(t, r, ArraySort(SInt, m.vsort)), i, m.vsort)
 		f := e.rangeFact(v, m.vtype)
+		if af := e.allocFact(v, m.vtype, alloc); af.S != "true" {
+			f = And(f, Implies(Lt(r, alloc), af))
+		}
 		if f.S != "true" {
 			e.globalAxiom(fmt.Sprintf("(assert (forall ((r!q Int) (i!q Int)) (! %s :pattern (%s))))", f.S, v.S))
 		}
@@ -818,6 +828,9 @@ func (e *Exec) declareHeapVersion(key, name string) Term {
 		r := Term{"r!q", SInt}
 		v := Select(t, r, m.vsort)
 		f := e.rangeFact(v, m.vtype)
+		if af := e.allocFact(v, m.vtype, alloc); af.S != "true" {
+			f = And(f, Implies(Lt(r, alloc), af))
+		}
 		if f.S != "true" {
 			e.globalAxiom(fmt.Sprintf("(assert (forall ((r!q Int)) (! %s :pattern (%s))))", f.S, v.S))
 		}
@@ -854,7 +867,7 @@ func (e *Exec) heapGet(st *State, key string) Term {
 func (e *Exec) heapHavoc(st *State, key string) Term {
 	e.nfresh++
 	name := fmt.Sprintf("%s!%d", key, e.nfresh)
-	t := e.declareHeapVersion(key, name)
+	t := e.declareHeapVersionAt(key, name, e.allocGet(st))
 	st.heap[key] = t
 	return t
 }
